@@ -136,6 +136,11 @@ def project(d, jac, c):
     detail = {}
     if not c.get("wellformed"):
         return ev, detail
+    if c["outcome"] == "exception:FloatingPointError":
+        # only possible when the CALLER asked NumPy to trap floating-point events (np.seterr(all="raise") leaks from an earlier
+        # test of the session into featuretests/common_subexpression_elimination, whose 1024-fold products underflow): no claim
+        detail["no_claim"] = "caller-configured floating-point trap"
+        return ev, detail
     ins = [c.get("x"), c.get("P"), c.get("u"), c.get("z"), [c["dt"]] if "dt" in c else None]
     if not _finite_bounded(*ins):
         return ev, detail
